@@ -3,6 +3,13 @@
 without a module is listed under not_applicable with the reason recorded in tools/not_claimed.json."""
 import importlib, json, os, sys
 V = os.path.dirname(os.path.dirname(os.path.abspath(__file__)))
+
+
+def _atomic(path, obj):
+    """several builders run this tool while checks read the files: never expose a half-written file"""
+    tmp = path + ".tmp%d" % os.getpid()
+    with open(tmp, "w") as f: json.dump(obj, f, indent=1)
+    os.replace(tmp, path)
 sys.path.insert(0, os.path.join(V, "harness")); sys.path.insert(0, "/repo")
 os.chdir("/repo")
 props = [json.loads(l) for l in open(os.path.join(V, "properties.jsonl"))]
@@ -61,7 +68,7 @@ m = {
     "not_applicable": na,
     "notes": "All checks: ./check <id> --tier quick|thorough; exit 0 held, 1 VIOLATION, 2 infrastructure. See DESIGN.md.",
 }
-json.dump(m, open(os.path.join(V, "MANIFEST.json"), "w"), indent=1)
+_atomic(os.path.join(V, "MANIFEST.json"), m)
 # known_findings.json = merge of the per-property fragments known/Cxx.json (edited by hand, never at run time)
 import glob
 kf = {"_doc": "Committed; merged by tools/gen_manifest.py from known/Cxx.json; never written at run time. "
@@ -71,5 +78,5 @@ kf = {"_doc": "Committed; merged by tools/gen_manifest.py from known/Cxx.json; n
 for f in sorted(glob.glob(os.path.join(V, "known", "C*.json"))):
     j = json.load(open(f))
     kf["findings"] += j.get("findings", []); kf["fixed"] += j.get("fixed", [])
-json.dump(kf, open(os.path.join(V, "known_findings.json"), "w"), indent=1)
+_atomic(os.path.join(V, "known_findings.json"), kf)
 print(f"{len(checks)} checks, {len(na)} not claimed")
